@@ -126,6 +126,76 @@ def get(F):
     return _CACHE[id(F)]
 
 
+
+# ------------------------------------------------------------------------------------------------
+# functions that did not exist on the reference tree are transparent: what such a helper does is attributed to the
+# (known) functions that call it, so extracting statements into a private helper does not create a new "writer",
+# "reader", "constructor" or "caller" in the who-may-X rules
+
+_REV = {}
+
+
+def _callers_map(F):
+    if id(F) in _REV:
+        return _REV[id(F)]
+    rev = {}
+    for fn in F.fn_list:
+        for body in [fn.body] + fn.promoted:
+            if body is None:
+                continue
+            for bb, t in body.calls():
+                f = t["f"]
+                if f.get("k") == "def" and f.get("r"):
+                    rev.setdefault(f["r"], set()).add(fn.q)
+            for blk in body.blocks:
+                for st in blk["s"]:
+                    if st["k"] == "assign" and st["rv"]["k"] == "agg" and st["rv"].get("ak") == "closure":
+                        rev.setdefault(st["rv"]["d"], set()).add(fn.q)
+                    # function items taken as values (`.map(helper)`)
+                    if st["k"] == "assign":
+                        for x in ([st["rv"].get("x")] if st["rv"].get("x") else []) + list(st["rv"].get("xs", [])):
+                            if isinstance(x, dict) and x.get("k") == "const":
+                                ty = body.ty(x["t"]) if "t" in x else None
+                                if ty and ty.get("k") == "fndef":
+                                    rev.setdefault(ty["d"], set()).add(fn.q)
+    _REV[id(F)] = rev
+    return rev
+
+
+def known_owners(F, q, _seen=None):
+    """{q} for a function of the reference tree; for a new helper, the known functions that reach it through new helpers only
+    (the helper itself when nothing calls it)."""
+    if not F.is_new_fn(q):
+        return {q}
+    _seen = _seen if _seen is not None else set()
+    if q in _seen:
+        return set()
+    _seen.add(q)
+    rev = _callers_map(F)
+    callers = set(rev.get(q, ()))
+    if "::{closure#" in q:
+        callers.add(q.rsplit("::{closure#", 1)[0])
+    out = set()
+    for c in callers:
+        out |= known_owners(F, c, _seen)
+    return out or {q}
+
+
+def attribute(F, items):
+    """rewrite who-may-X results: an item found in a new helper is reported once per known owner of that helper"""
+    out = []
+    for it in items:
+        fn = it[0]
+        if not F.is_new_fn(fn.q):
+            out.append(it)
+            continue
+        owners = known_owners(F, fn.q)
+        for oq in sorted(owners):
+            g = F.fn_opt(oq)
+            out.append(((g if g is not None else fn),) + tuple(it[1:]))
+    return out
+
+
 # ------------------------------------------------------------------------------------------------
 # def-level queries straight from the MIR bodies (all crates, including generic bodies)
 
@@ -141,7 +211,7 @@ def who_calls(F, callee_q, crates=None):
                 f = t["f"]
                 if f["k"] == "def" and (f.get("r") == callee_q or f["d"] == callee_q):
                     out.append((fn, bb, t))
-    return out
+    return attribute(F, out)
 
 
 def who_constructs(F, adt_q, variant=None, crates=None, skip_macros=True):
@@ -155,7 +225,7 @@ def who_constructs(F, adt_q, variant=None, crates=None, skip_macros=True):
                 if skip_macros and (fn.mac and fn.mac not in ("desugar:QuestionMark",)):
                     continue
                 out.append((fn, bb, si, s))
-    return out
+    return attribute(F, out)
 
 
 def who_writes_field(F, adt_q, field, crates=None):
@@ -174,7 +244,7 @@ def who_writes_field(F, adt_q, field, crates=None):
                 pl = rv["p"]
                 if prov.field_write(F, fn.body, pl, adt_q) == field:
                     out.append((fn, bb, si, s))
-    return out
+    return attribute(F, out)
 
 
 def who_reads_field(F, adt_q, field, crates=None):
@@ -207,4 +277,4 @@ def who_reads_field(F, adt_q, field, crates=None):
             for x in t["xs"]:
                 if x["k"] in ("copy", "move") and prov.field_write(F, fn.body, x, adt_q) == field:
                     out.append((fn, bb, None, t))
-    return out
+    return attribute(F, out)
